@@ -205,3 +205,43 @@ def same_term(a, b):
         return bool(a == b)
     except Exception:
         return False
+
+
+def same_multiset(ctx, A, B, eq=None):
+    """A and B (lists of tuples) are equal as multisets: syntactic matching first, then a solver-decided search over the
+    permutations of what is left (sizes are small by construction).  ``eq(a, b)`` compares two tuples (default: cell_same
+    on every component)."""
+    import itertools
+
+    if len(A) != len(B):
+        return False
+    if eq is None:
+        def eq(a, b):
+            return ctx.all(*[cell_same(ctx, x, y) for x, y in zip(a, b)]) if len(a) == len(b) else False
+    used = [False] * len(B)
+    rest = []
+    for a in A:
+        for j, b in enumerate(B):
+            if not used[j] and len(a) == len(b) and all(same_term(x, y) for x, y in zip(a, b)):
+                used[j] = True
+                break
+        else:
+            rest.append(a)
+    left = [b for j, b in enumerate(B) if not used[j]]
+    if not rest:
+        return True
+    if len(rest) > 5:
+        return False
+    return ctx.any(*[ctx.all(*[eq(a, b) for a, b in zip(rest, p)]) for p in itertools.permutations(left)])
+
+
+def is_int_numeral(ctx, s):
+    """the text field denotes an integer (a token whose term is syntactically integral, or a plain integer numeral)."""
+    import re
+    from symx import tokens
+    from symx.core import p_integral
+
+    v = tokens.detok(s) if ctx.sym else None
+    if v is not None:
+        return (not isinstance(v, SymNum)) and float(v).is_integer() or (isinstance(v, SymNum) and p_integral(v.p))
+    return re.match(r"^\s*-?\d+\s*$", s if isinstance(s, str) else bytes(s).decode()) is not None
